@@ -57,6 +57,7 @@ class GenCfg:
     recursive_refs: bool = True
     ap_schema_with_props: bool = False
     roots: bool = True  # non-object roots (root models)
+    boost: str = ""  # "allOf" / "union": make that construct frequent
 
 
 def validator_for(doc: dict):
@@ -364,6 +365,10 @@ class DocGen:
         r = self.rng
         deep = depth >= self.cfg.max_depth
         k = r.below(20)
+        if self.cfg.boost == "allOf" and k < 4 and not deep and self.cfg.all_of:
+            return self.all_of(depth)
+        if self.cfg.boost == "union" and k < 4 and not deep and self.cfg.unions:
+            return self.union(depth)
         if k < 6:
             return self.scalar()
         if k < 8:
